@@ -333,10 +333,23 @@ class Runner(object):
                 import accessors
                 cp = self.path + ".rwcopy.nix"
                 shutil.copyfile(self.path, cp)
+                deco = None
                 try:
                     g = nixio.File.open(cp, nixio.FileMode.ReadWrite, auto_update_timestamps=auto)
                     rw_sweep = accessors.sweep(g)
+                    # ... then, still on the copy: every unset optional attribute gets a value, and a read-only session on
+                    # the decorated copy must refuse to clear or rewrite any of them, leaving its bytes alone
+                    ndeco = accessors.decorate(g)
                     g.close()
+                    import hashlib
+                    with open(cp, "rb") as fh:
+                        sha0 = hashlib.sha256(fh.read()).hexdigest()
+                    g = nixio.File.open(cp, nixio.FileMode.ReadOnly)
+                    nmut, silent = accessors.ro_mutators(g)
+                    g.close()
+                    with open(cp, "rb") as fh:
+                        same = hashlib.sha256(fh.read()).hexdigest() == sha0
+                    deco = {"decorated": ndeco, "mutators": nmut, "silent": silent[:5], "nsilent": len(silent), "bytes_unchanged": same}
                 finally:
                     os.remove(cp)
             if self.readonly:
@@ -356,7 +369,9 @@ class Runner(object):
                 ro_sweep = accessors.sweep(self.f)
                 diffs = [[k, rw_sweep.get(k, "absent"), ro_sweep.get(k, "absent")]
                          for k in sorted(set(rw_sweep) | set(ro_sweep)) if rw_sweep.get(k, "absent") != ro_sweep.get(k, "absent")]
-                self.ro_sweep.append({"step": self.step, "accessors": len(ro_sweep), "diffs": diffs[:5], "ndiffs": len(diffs)})
+                nmut, silent = accessors.ro_mutators(self.f)
+                self.ro_sweep.append({"step": self.step, "accessors": len(ro_sweep), "diffs": diffs[:5], "ndiffs": len(diffs),
+                                      "mutators": nmut, "silent": silent[:5], "nsilent": len(silent), "decorated_copy": deco})
             return 0
         raise RuntimeError("unknown op %r" % (op,))
 
